@@ -346,7 +346,10 @@ def run(ctx):
         return falcon.Request(env)
 
     def mk_asgi(headers, scheme='http', remote=None):
-        scope = ft.create_scope(path='/p/q', query_string='x=1', scheme=scheme, host='srv.example', port=8000 if scheme == 'http' else 8443)
+        scope = ft.create_scope(path='/p/q', query_string='x=1', scheme={'ws': 'http', 'wss': 'https'}.get(scheme, scheme), host='srv.example', port=8000 if scheme == 'http' else 8443)
+        if scheme in ('ws', 'wss'):            # a WebSocket handshake: same headers, scheme ws / wss (ASGI spec)
+            scope['type'] = 'websocket'; scope['scheme'] = scheme
+            scope.pop('method', None)
         scope['headers'] = [(n.lower().encode('latin-1'), v.encode('latin-1')) for n, v in headers]
         if remote is not None: scope['client'] = (remote, 4711)
 
@@ -445,7 +448,8 @@ def run(ctx):
     for ci in range(N):
         mode = rnd.choice(['valid', 'valid', 'mutated', 'hostile'])
         stack = rnd.choice(['wsgi', 'asgi'])
-        scheme = rnd.choice(['http', 'https'])
+        scheme = rnd.choice(['http', 'https'] if stack == 'wsgi' else ['http', 'https', 'http', 'https', 'ws', 'wss'])
+        secure = scheme in ('https', 'wss')
         headers = []; expect = {}
         kinds = rnd.sample(['range', 'date', 'etag', 'cookie', 'forwarded', 'host', 'cl', 'accept', 'xff', 'xri'], rnd.randint(1, 4))
         if mode == 'hostile':
@@ -466,7 +470,7 @@ def run(ctx):
                 elif k == 'forwarded':
                     v, exp = gen_forwarded(); headers.append((casing('Forwarded'), v)); expect['forwarded'] = exp
                 elif k == 'host':
-                    v, h, p = gen_host(); headers.append((casing('Host'), v)); expect['host'] = h; expect['port'] = p if p is not None else (443 if scheme == 'https' else 80)
+                    v, h, p = gen_host(); headers.append((casing('Host'), v)); expect['host'] = h; expect['port'] = p if p is not None else (443 if secure else 80)
                 elif k == 'accept':
                     v, ranges = gen_accept(); headers.append((casing('Accept'), v)); expect['accept_ranges'] = ranges
                 elif k == 'xff':
@@ -572,7 +576,7 @@ def run(ctx):
         sess.op(f'unit {show_opt(rgv)}', rd_unit(obs['range_unit']))
         sess.op(f'host {show_opt(hov)} {hs("srv.example")}', 'bad' if obs['host'][0] == 'http' else 'ok ' + hs(obs['host'][1]))
         sp = 8000 if scheme == 'http' else 8443
-        sess.op(f'port {show_opt(hov)} {1 if scheme == "https" else 0} {sp}', 'bad' if obs['port'][0] == 'http' else f'ok {"none" if obs["port"][1] is None else obs["port"][1]}')
+        sess.op(f'port {show_opt(hov)} {1 if secure else 0} {sp}', 'bad' if obs['port'][0] == 'http' else f'ok {"none" if obs["port"][1] is None else obs["port"][1]}')
         for a in ('if_match', 'if_none_match'):
             v = hv.get(a.replace('_', '-'))
             if v is not None and obs[a][0] == 'ok':
@@ -594,7 +598,7 @@ def run(ctx):
             uline = (f'wsgi {hs(scheme)} {show_opt(hov)} {hs("srv.example")} {hs(str(sp))} {hs("")} {hs("/p/q")} 0 {hs("x=1")} '
                      f'{show_opt(hv.get("forwarded"))} {show_opt(hv.get("x-forwarded-proto"))} {show_opt(hv.get("x-forwarded-host"))}')
         else:
-            uline = (f'asgi {hs(scheme)} 0 {show_opt(hov)} {hs("srv.example")} {sp} {hs("")} {hs("/p/q")} 0 {hs("x=1")} '
+            uline = (f'asgi {hs(scheme)} {1 if scheme in ("ws", "wss") else 0} {show_opt(hov)} {hs("srv.example")} {sp} {hs("")} {hs("/p/q")} 0 {hs("x=1")} '
                      f'{show_opt(hv.get("forwarded"))} {show_opt(hv.get("x-forwarded-proto"))} {show_opt(hv.get("x-forwarded-host"))}')
         sess3.op(uline + ' ' + ','.join(c for c, _a in URL_ORDER for _i in (0, 1)),
                  ' '.join(rd_val(c, o[a]) for c, a in URL_ORDER for o in (obs, obs2)))
